@@ -42,6 +42,7 @@ def magpy():
 
 
 def _base_classes():
+    magpy()   # makes sure the package comes from the repository under test
     from magpylib._src.obj_classes.class_BaseGeo import BaseGeo
     from magpylib._src.defaults.defaults_utility import MagicProperties
     from magpylib._src.obj_classes.class_Collection import Collection
